@@ -14,6 +14,11 @@ logging.disable(logging.CRITICAL)
 
 
 def oracle(case) -> Info:
+    with C.local_tz(len(repr(case))):  # the process's local time zone is part of the environment: results must not depend on it
+        return _oracle_tz(case)
+
+
+def _oracle_tz(case) -> Info:
     layout, elements, apdu = case[0], [tuple(e) for e in case[1]], case[2]
     prelude = case[3] if len(case) > 3 else "none"
     run_prelude(prelude)
